@@ -62,6 +62,8 @@ def check_model(net, bounds, flip, scale, stats, rich=False):
         warnings.simplefilter("ignore")
         sols = [("default", None), ("fba", model.optimize())]
         sols += [("vertex", solution_from(x)) for x in optimal_vertices(fba, z, 4 if rich else 2)]
+        # a solution whose own objective_value is not the model objective at its fluxes (pFBA: total flux)
+        sols.append(("given_pfba", pfba(model)))
         fva_frame = flux_variability_analysis(model, processes=1) if z >= 0 else None
         default_sol = pfba(model)
     fvas = [("none", None)]
